@@ -63,6 +63,8 @@ mod themes;
 mod transform;
 mod transform_attr;
 mod types;
+#[cfg(feature = "verif")]
+pub mod verif;
 
 pub use errors::Result;
 use transform::Transformer;
@@ -141,6 +143,15 @@ pub fn transform_stream(
     writer: &mut dyn Write,
     config: &TransformConfig,
 ) -> Result<()> {
+    #[cfg(feature = "verif")]
+    if verif::enter_outermost() {
+        // outermost call on this thread: run the real transform (the nested
+        // call below sees the flag set) and record how it ended
+        verif::begin(config);
+        let res = transform_stream(reader, writer, config);
+        verif::end(&res);
+        return res;
+    }
     let mut t = Transformer::from_config(config);
     t.transform(reader, writer)
 }
